@@ -964,15 +964,17 @@ func TestVerif_C15(t *testing.T) {
 	c.Bound("candidate_bits_depth1", nb1)
 	c.Bound("candidate_bits_depth2", nb2)
 
+	// Every part runs under its own share of the deadline so that a slow machine cannot starve the
+	// later parts (on an idle machine no share is reached).
 	// existence tracking on: every depth<=1 tree and its Count, every depth-2 tree
-	c15Part1(c, true, nb1, c15WithCounts(d1), nil, false, "d1")
-	c15Part1(c, true, nb2, d2, nil, true, "d2")
+	c.WithBudget(float64(c.Pick(50, 250)), func() { c15Part1(c, true, nb1, c15WithCounts(d1), nil, false, "d1") })
+	c.WithBudget(float64(c.Pick(60, 500)), func() { c15Part1(c, true, nb2, d2, nil, true, "d2") })
 	// Store(<tree>, f=9) + Row(f=9) for every depth<=1 tree over the small leaves + V
 	storeTrees := c15Depth1([]int{c15LeafA, c15LeafB, c15LeafC, 3}, nil, false)
 	c.Bound("store_trees", len(storeTrees))
-	c15Part1(c, true, c.Pick(5, 7), nil, storeTrees, false, "store")
+	c.WithBudget(float64(c.Pick(25, 100)), func() { c15Part1(c, true, c.Pick(5, 7), nil, storeTrees, false, "store") })
 	// existence tracking off: Not must be refused, everything else unchanged
-	c15Part1(c, false, c.Pick(5, 7), c15WithCounts(d1), nil, true, "d1-notrack")
+	c.WithBudget(float64(c.Pick(25, 100)), func() { c15Part1(c, false, c.Pick(5, 7), c15WithCounts(d1), nil, true, "d1-notrack") })
 
 	// ---- histories
 	states := map[string]struct{}{}
@@ -1015,14 +1017,14 @@ func TestVerif_C15(t *testing.T) {
 	}
 	bases := [][]int{{0, 1, 2}, {}}
 	if c.Thorough() {
-		bases = [][]int{{0, 1, 2, 3, 4}, {}, {0, 2}, {1, 3, 4}}
+		bases = [][]int{{}, {0, 2}, {1, 3, 4}, {0, 1, 2, 3, 4}} // the last one is explored one level deeper
 	}
 	c.Bound("history_bases", len(bases))
 	c.Bound("history_read_battery", len(reads))
 	for bi, base := range bases {
 		base := base
 		depth := c.Pick(3, 3)
-		if c.Thorough() && bi == 0 {
+		if c.Thorough() && bi == len(bases)-1 {
 			depth = 4
 		}
 		mkModel := func() *c15Hist {
